@@ -12,12 +12,14 @@ Files are written below a fresh directory made with tempfile.mkdtemp(dir="/tmp")
 marker @ROOT@ inside a text stands for the absolute name of the per-run directory.
 """
 import atexit
+import inspect
 import itertools
 import json
 import os
 import posixpath
 import re
 import shutil
+import sys
 import tempfile
 
 from vlib import Stream, exc_class, err_line, import_freephil, canon, obj_sx, strip_tree
@@ -266,8 +268,12 @@ class IncludeStream(Stream):
         fp = self.fp
         root = base + "/" + case["root"]
         old = os.getcwd()
+        lim = sys.getrecursionlimit()
         try:
             os.chdir(base + "/" + cwd_rel)
+            # legitimate nesting here is a handful of files deep; a low limit makes an unbounded
+            # include recursion show up as RecursionError at once instead of after 10^4 frames
+            sys.setrecursionlimit(min(lim, len(inspect.stack(0)) + 600))
             try:
                 if case["mode"] == "abs":
                     t = fp.parse(file_name=root, process_includes=True)
@@ -279,6 +285,7 @@ class IncludeStream(Stream):
             except Exception as e:  # noqa
                 return err_obs(e, base), None
         finally:
+            sys.setrecursionlimit(lim)
             os.chdir(old)
 
     def inline_check(self, case, base, tree):
